@@ -243,7 +243,7 @@ LEAVE_ORDERS = list(_perms(range(3)))
 
 
 def subs_params(tier):
-    return [P("order", 0, 5), P("slowpos", 0, 3), P("kind", 0, 1)]
+    return [P("order", 0, 5), P("slowpos", 0, 3), P("kind", 0, 1), P("zeroq", 0, 1)]
 
 
 @guard
@@ -255,7 +255,9 @@ def subs_fn(a, tier):
     order = LEAVE_ORDERS[pick(a["order"], 6)]
     slowpos = pick(a["slowpos"], 4)
     cls = [Base, Sized][pick(a["kind"], 2)]
+    zeroq = pick(a["zeroq"], 2)  # one more subscriber of obj.a with max_queue_size=0 (hand-off only) that is always waiting when an event is dispatched
     obj = cls()
+    got_z, all_a = [], []
     got = {i: [] for i in range(3)}
     got_b, errors, expected = [], [], {i: [] for i in range(3)}
 
@@ -282,7 +284,16 @@ def subs_fn(a, tier):
                     task_status.started()
                     await anyio.sleep_forever()  # never reads
 
+            async def listen_zero(*, task_status):
+                async with obj.a.stream_events(max_queue_size=0) as stream:
+                    task_status.started()
+                    async for ev in stream:
+                        got_z.append(ev)
+
             await tg.start(listen_b)
+            if zeroq:
+                await tg.start(listen_zero)
+                await anyio.wait_all_tasks_blocked()
             for i in range(3):
                 if slowpos == i + 1:
                     await tg.start(slow)
@@ -301,6 +312,7 @@ def subs_fn(a, tier):
                         errors.append(("dispatch-raised", type(e).__name__))
                     for i in active:
                         expected[i].append(ev)
+                    all_a.append(ev)
 
                 send()
                 for leaver in order:
@@ -314,12 +326,15 @@ def subs_fn(a, tier):
         for i in range(3):
             if len(got[i]) != len(expected[i]) or any(x is not y for x, y in zip(got[i], expected[i])):
                 errors.append(("subscriber-of-the-channel-missed-or-got-extra-events", f"subscriber {i}: got {len(got[i])}, expected {len(expected[i])}"))
+        if zeroq and (len(got_z) != len(all_a) or any(x is not y for x, y in zip(got_z, all_a))):
+            errors.append(("waiting-subscriber-with-max_queue_size-0-missed-events-of-its-channel", f"got {len(got_z)} of {len(all_a)}"))
         if len(got_b) != 1 or got_b[0] is not filler:
             errors.append(("neighbour-channel-subscriber", f"got {len(got_b)} events"))
 
     _, exc, _k = run(main)
     summary = {"leave_order_of_the_three_subscribers": list(order), "owner": ["plain class", "falsy instances"][cls is Sized],
-               "subscriber_with_a_full_1_slot_queue_over_both_channels": ["none", "subscribed first", "subscribed second", "subscribed third"][slowpos]}
+               "subscriber_with_a_full_1_slot_queue_over_both_channels": ["none", "subscribed first", "subscribed second", "subscribed third"][slowpos],
+               "waiting_subscriber_with_max_queue_size_0": bool(zeroq)}
     if exc is not None:
         return FAIL(f"subscribers:raised:{type(exc).__name__}", repr(exc), summary)
     if errors:
